@@ -63,12 +63,13 @@ func checkC03(p *Prog, r *Report) {
 		"Agent.handleBindingRequestWithCustomHandler": true, "Agent.replaceRemoteInPairs": true}
 	for _, e := range p.Callers(ssp) {
 		name := e.Caller.Name
-		if !allowed[name] {
-			r.Fail("selection site "+name, p.Pos(e.Site.Pos()), "new caller of setSelectedPair outside the documented selection sites")
+		if len(e.Call.Args) == 1 && p.isNilExpr(e.Call.Args[0]) {
+			// clearing the selection is not a selection, wherever it is done (the wipe sites or a helper of theirs)
+			r.Trivial("selection site "+name+" (nil)", p.Pos(e.Site.Pos()), "clears the selection")
 			continue
 		}
-		if len(e.Call.Args) == 1 && p.isNilExpr(e.Call.Args[0]) {
-			r.Trivial("selection site "+name+" (nil)", p.Pos(e.Site.Pos()), "clears the selection")
+		if !allowed[name] {
+			r.Fail("selection site "+name, p.Pos(e.Site.Pos()), "new caller of setSelectedPair outside the documented selection sites")
 			continue
 		}
 		switch name {
